@@ -39,6 +39,32 @@ def renormPrices (par v : α) (values flows : List α) : List α :=
   | [] => []
   | _ :: _ => par :: (cumReturns v values flows).map (fun c => par * (1 + c))
 
+/-! ### the normalising value as a series (`returns / v` row by row), NaN as pandas treats it
+
+  `normalizing_value` may be a `pd.Series` on the backtest's dates.  A NaN cell of `returns / v` (a missing normaliser, `0 / 0`) is
+  skipped by `cumsum`: that row shows NaN, the running total carries on.  `±inf` (a non-zero return over a zero normaliser) is a
+  number to `cumsum` and stays in the total.  The scalar case is the constant series. -/
+
+/-- a computed number as a pandas cell: NaN (the only `x` with `¬ x ≤ x`) is missing -/
+def ofNum [LE α] [DecidableLE α] (x : α) : Option α := if x ≤ x then some x else none
+
+/-- rows 1.. of `returns / v` -/
+def scaled [LE α] [DecidableLE α] : List α → List (Option α) → List (Option α)
+  | r :: rs, v :: vs => (v.bind fun v => ofNum (r / v)) :: scaled rs vs
+  | _, _ => []
+
+/-- `Series.cumsum()` (skipna) continued from a running total -/
+def cumFromO (acc : α) : List (Option α) → List (Option α)
+  | [] => []
+  | none :: xs => none :: cumFromO acc xs
+  | some x :: xs => some (acc + x) :: cumFromO (acc + x) xs
+
+/-- the renormalised price series for a normaliser given row by row (`vs` has one cell per date; its first cell is never used) -/
+def renormPricesS [LE α] [DecidableLE α] (par : α) (vs : List (Option α)) (values flows : List α) : List (Option α) :=
+  match values with
+  | [] => []
+  | _ :: _ => some par :: (cumFromO 0 (scaled (netReturns values flows) vs.tail)).map (Option.map fun c => par * (1 + c))
+
 /-- the additive index a fixed-income strategy records when every date's return is measured on the base `base t`
     (`StrategyBase.update`: `price = last_price + pnl / base * PAR`, `pnl = value - (last_value + net_flows)`): rows 1.. -/
 def additiveFrom (par : α) (p : α) : List α → List α → List α → List α
